@@ -228,3 +228,31 @@ func init() {
 func init() {
 	ctl("mutateInsert returns the value twice", "A3-DISTINCT", "mutateInsert|new value and difference", "updates", "", "mutateInsert", kExpr, "copyValue(value)", 0, to("value"))
 }
+
+func init() {
+	// ---- rules added after the second wave of seeded changes
+	ctl("Create writes indexes while validating", "X7", "(*cache.RowCache).Create|error return", "cache", "RowCache", "Create", kStmt, "addIndexes[index][val] = uuidset", 0, before("r.indexes[index][val] = uuidset"))
+	registerControl(&ControlDef{Name: "selected columns kept across tables", Rule: "S-LOOP", Expect: "filter2|per-iteration container", Edit: func(p *Program) ([]TextEdit, error) {
+		decl, err := locate(p, "server", "monitor", "filter2", kStmt, "cols := make(map[string]bool)", 0)
+		if err != nil {
+			return nil, err
+		}
+		pre, err := locate(p, "server", "monitor", "filter2", kStmt, "tus2 := make(ovsdb.TableUpdates2, len(tables))", 0)
+		if err != nil {
+			return nil, err
+		}
+		return []TextEdit{p.editReplace(decl, ""), p.editReplace(pre, p.text(pre)+"\ncols := make(map[string]bool)")}, nil
+	}})
+	ctl("inserted rows skip reference initialisation", "T-INITREFS", "processRowUpdate|references initialised", "updates", "referenceTracker", "processRowUpdate", kStmt, "updateRefs = getReferenceModificationsFromRow(&rt.dbModel, table, uuid, row.Insert, nil)", 0, func(orig string) string {
+		return orig + "\napplyReferenceModifications(rt.references, updateRefs)\nreturn nil"
+	})
+	ctl("map decoder only accepts uuid arrays as values", "K6", "nested tag test", "ovsdb", "OvsMap", "UnmarshalJSON", kExpr, `len(vSet) != 2 || vSet[0] == "map"`, 1, to(`len(vSet) != 2 || (vSet[0] != "uuid" && vSet[0] != "named-uuid")`))
+	ctl("Clone takes a shallow fast path", "G-CLONE", "model.Clone|deep copy paths", "model", "", "Clone", kStmt, "aBytes, _ := json.Marshal(a)", 0, before("if val.NumField() == 0 {\nreflect.ValueOf(b).Elem().Set(val)\nreturn b\n}"))
+	ctl("stop drains the event queue", "V-RECV", "received event is dispatched", "cache", "eventProcessor", "Run", kStmt, "return", 0, to("for {\nselect {\ncase <-e.events:\ndefault:\nreturn\n}\n}"))
+	ctl("Populate2 deletes a row directly", "V-WHO", "Populate2|RowCache.Delete", "cache", "TableCache", "Populate2", kStmt, "update := updates.ModelUpdates{}", 0, before("if row.Insert != nil && tCache.cache[uuid] != nil {\n_ = tCache.Delete(uuid)\n}"))
+	ctl("index check skips rows", "X8", "IndexExists on every transaction row", "database/transaction", "Transaction", "checkIndexes", kStmt, "err := tc.IndexExists(row)", 0, before("if row == nil {\ncontinue\n}"))
+	ctl("lock taken before waiting for the handlers", "L-WAIT", "handleDisconnectNotification|WaitGroup.Wait", "client", "ovsdbClient", "handleDisconnectNotification", kStmt, "o.handlerShutdown.Wait()", 0, to("o.shutdownMutex.Lock()\no.handlerShutdown.Wait()\no.shutdownMutex.Unlock()"))
+	ctl("transact accepts an empty operation list", "G-ARGS", "at least one operation", "server", "OvsdbServer", "Transact", kExpr, "len(args) < 2", 0, to("len(args) < 1"))
+	ctl("delete-by-keys special case for every column", "P-NIL-TYPEOBJ", "addMutateOperation|deref", "updates", "ModelUpdates", "addMutateOperation", kExpr, `mutation.Mutator == "delete" && column.Type == ovsdb.TypeMap && reflect.TypeOf(mutation.Value) != reflect.TypeOf(ovsdb.OvsMap{})`, 0, to(`mutation.Mutator == "delete" && reflect.TypeOf(mutation.Value) != reflect.TypeOf(ovsdb.OvsMap{})`))
+	ctl("leader check signals traffic", "T-WIRE", "isEndpointLeader|transact", "client", "ovsdbClient", "isEndpointLeader", kExpr, "o.transact(ctx, serverDB, true, op)", 0, to("o.transact(ctx, serverDB, false, op)"))
+}
